@@ -4,6 +4,8 @@ package main
 
 import (
 	"fmt"
+	"io"
+	"log/slog"
 	"os"
 
 	"verif/harness/checks"
@@ -29,6 +31,8 @@ func main() {
 	if !ok {
 		core.Infra("no check registered for %s", id)
 	}
+	// gmrtd logs through slog; the drivers run it hundreds of thousands of times
+	slog.SetDefault(slog.New(slog.NewTextHandler(io.Discard, nil)))
 	c := core.New(id, tier)
 	c.Replay = replay
 	defer func() {
